@@ -463,6 +463,32 @@ pub fn run_untyped(op: &str, args: &[&str]) -> Option<String> {
             };
             Some(format!("set n={} de={};map n={} de={}", s.len(), ds, m.len(), dm))
         }
+        // sockv6dec: what a decoded SocketAddrV6 holds in the two fields the format does not carry (Model::to_val
+        // drops them, so the typed ops cannot see them)
+        ("sockv6dec", []) => {
+            use std::net::{Ipv6Addr, SocketAddrV6};
+            let mut out = Vec::new();
+            for (ip, port, flow, scope) in [
+                (Ipv6Addr::LOCALHOST, 80u16, 0u32, 0u32),
+                (Ipv6Addr::new(0x2001, 0xdb8, 0, 0, 0, 0xff00, 0x42, 0x8329), 65535, 7, 9),
+                (Ipv6Addr::UNSPECIFIED, 0, u32::MAX, u32::MAX),
+            ] {
+                let a = SocketAddrV6::new(ip, port, flow, scope);
+                let bytes = borsh::to_vec(&a).ok()?;
+                out.push(match borsh::from_slice::<SocketAddrV6>(&bytes) {
+                    Ok(d) => format!(
+                        "len={} ip={} port={} flow={} scope={}",
+                        bytes.len(),
+                        d.ip() == a.ip(),
+                        d.port() == a.port(),
+                        d.flowinfo(),
+                        d.scope_id()
+                    ),
+                    Err(e) => crate::errs::err_s(&e),
+                });
+            }
+            Some(out.join(";"))
+        }
         _ => None,
     }
 }
